@@ -10,7 +10,8 @@ import graphiso as G
 
 PROP = "C08"
 RULE = ("seeded random accepted files (2-4 stanzas in TLC-validated runs, incl. scoped variables read before their definition and "
-        "attributes on edges created by later stanzas) x all permutations of their stanzas x corpus trees, lazy mode; groups in "
+        "attributes on edges created by later stanzas, several edges out of one node to nodes created by different stanzas, comprehensions "
+        "whose element reads a scoped variable defined by another stanza) x all permutations of their stanzas x corpus trees, lazy mode; groups in "
         "which a graph-node number is rendered as text (decided by the machine) are excluded; non-trivial = at least one statement "
         "executed and at least 2 stanzas")
 
@@ -78,6 +79,34 @@ def make_cases(tier):
         A.stanza(q_id, [A.edge(A.svar(A.cap("id"), "a"), A.svar(A.cap("id"), "b"))]),
         A.stanza("(module) @m ", [A.attre(A.svar(A.cap("m"), "a"), A.svar(A.cap("m"), "b"), A.attr("k", A.integer(1)))]),
     ], inherit=["a", "b"]), 2, "lazy"))
+    # several edges out of one node to nodes which different stanzas create (their numbers depend on the stanza order), then lookups
+    # of those edges: attributes and a repeated `edge`
+    m = A.cap("m")
+    sv = lambda n: A.svar(m, n)
+    qm = "(module) @m "
+    base.append(A.case("c08fan-lazy", A.file([
+        A.stanza(qm, [A.node(sv("a"))]),
+        A.stanza(qm, [A.node(sv("b"))]),
+        A.stanza(qm, [A.node(sv("c")), A.edge(sv("c"), sv("a")), A.edge(sv("c"), sv("b")), A.attre(sv("c"), sv("a"), A.attr("k", A.integer(1))),
+                      A.attre(sv("c"), sv("b"), A.attr("k", A.integer(2))), A.edge(sv("c"), sv("a"))]),
+    ]), 2, "lazy"))
+    base.append(A.case("c08fan2-lazy", A.file([
+        A.stanza(qm, [A.node(sv("a")), A.edge(sv("c"), sv("a"))]),
+        A.stanza(qm, [A.node(sv("b")), A.edge(sv("c"), sv("b")), A.node(sv("d")), A.edge(sv("c"), sv("d"))]),
+        A.stanza(qm, [A.node(sv("c")), A.attre(sv("c"), sv("b"), A.attr("k", A.integer(2))), A.attre(sv("c"), sv("a"), A.attr("k", A.integer(1))),
+                      A.attre(sv("c"), sv("d"), A.attr("k", A.integer(3)))]),
+    ]), 3, "lazy"))
+    # comprehensions whose ELEMENT reads a scoped variable that another stanza (matching the same node) defines
+    qxs = "(module (_)* @xs) @m "
+    defs = A.stanza("(module (_)* @xs) @_m ", [A.forin("x", A.cap("xs"), [A.let(A.svar(A.var("x"), "text"), A.call("source-text", A.var("x")))])])
+    for j, comp in enumerate([A.listc(A.svar(A.var("x"), "text"), "x", A.cap("xs")),
+                              A.setc(A.call("node-type", A.var("x")), "x", A.cap("xs")),
+                              A.listc(A.call("format", A.string("{}!"), A.svar(A.var("x"), "text")), "x", A.cap("xs")),
+                              A.listc(A.lst(A.svar(A.var("x"), "text"), sv("tag")), "x", A.cap("xs"))]):
+        reader = A.stanza(qxs, [A.node(sv("n")), A.attrn(sv("n"), A.attr("texts", comp))])
+        tagdef = A.stanza(qm, [A.let(sv("tag"), A.string("t"))])
+        for src in (2, 5, 7):
+            base.append(A.case("c08comp-%d-%d-lazy" % (j, src), A.file([reader, defs, tagdef]), src, "lazy"))
     cases = []
     maxn = 3 if tier == "quick" else 4
     for c in base:
